@@ -1,134 +1,31 @@
-(* C03: the three code-generation targets as observable functions, all routed through the ONE wire specification
-   (Spec/Wire.v).  A target's observable behaviour = the specification composed with that target's documented float16
-   rounding rule:
-     C, C++   nunavutFloat16Pack / float16Pack (the same code in both support headers): nearest, ties AWAY from zero
-              (Prims/F16.v `f16_pack`, theorem F16ArithThm.f16_rounding_rule) - this is what Spec/Wire.v `cast_f` uses;
-     Python   struct.pack('<e', x): nearest, ties to EVEN.
-   So the Python target is the specification applied to a pre-adjusted value: a float16 field holding an exact tie whose
-   away-rounded half is odd gets the (exactly representable) even neighbour instead; everything else is untouched.
-   Code-generation options (target_endianness, asserts, C++ standard / allocator flavour, array container) are a parameter of
-   `target_ser` / `target_des` that is not used: the specification takes no option argument.  No proofs in this file. *)
-From Verif Require Export Wire.
-Local Open Scope N_scope.
+(* C03: targets, the option fields that reach the code-shaped models, and the SPEC-SIDE description of each target's serializer
+   (`spec_ser`): the ONE wire specification applied to the target's pre-adjusted value (Spec/TargetPre.v: identity for C and C++,
+   round-half-even float16 ties for Python).  The observables of the generated code themselves are defined over the shipped
+   primitive models in Codec/ObsC03.v and PROVED equal to these in Codec/ObsC03Thm.v.  No proofs in this file. *)
+From Verif Require Export Wire TargetPre.
+Local Open Scope nat_scope.
 
-(* ---- exact float16 ties, on the magnitude y < 2^31 of a binary32 pattern ----
-   normal half results (E >= 113): the 13 dropped bits are exactly 1000000000000;
-   subnormal half results (102 <= E <= 112): the 126-E dropped bits of the 24-bit significand are exactly 10...0;
-   below 2^-25 (E <= 101) everything rounds to zero, at and beyond 65520 everything rounds to infinity in both rules
-   (the `odd` test below keeps those equal) *)
-Definition is_tie16 (y : N) : bool :=
-  if F32INF <=? y then false
-  else let E := b32_exp y in
-       if 113 <=? E then (N.land y 8191 =? 4096)
-       else if 102 <=? E then (N.land (N.shiftl 1 23 + b32_man y) (N.ones (126 - E)) =? N.shiftl 1 (125 - E))
-            else false.
-
-(* what reaches the pack function: the 32 storage bits, clamped first when the field is saturated *)
-Definition f16_in (sat : bool) (x : N) : N := if sat then sat16 (x mod 2 ^ 32) else x mod 2 ^ 32.
-Definition f16_tie (sat : bool) (x : N) : bool := is_tie16 (N.land (f16_in sat x) 2147483647).
-
-(* round-half-even result of packing, expressed relative to the ties-away result *)
-Definition f16_pack_rne (y : N) : N :=
-  let h := f16_pack y in if is_tie16 (N.land y 2147483647) && N.odd h then h - 1 else h.
-
-(* the binary32 value whose ties-away packing equals Python's ties-to-even packing of x *)
-Definition py_f16 (sat : bool) (x : N) : N :=
-  let h := f16_pack (f16_in sat x) in
-  if f16_tie sat x && N.odd h then f16_unpack (h - 1) else x.
-
-Definition is_f16 (w : nat) : bool := Nat.eqb w 16.
-
-Definition py_leaf (p : prim) (v : val) : val :=
-  match p, v with
-  | PF w sat, VFlt x => if is_f16 w then VFlt (py_f16 sat x) else v
-  | _, _ => v
-  end.
-
-Definition tie_leaf (p : prim) (v : val) : bool :=
-  match p, v with
-  | PF w sat, VFlt x => is_f16 w && f16_tie sat x
-  | _, _ => false
-  end.
-
-(* ---- leaf-wise maps and tests over (type, value); lenient on malformed values (they are left alone / ignored) ---- *)
-Section LeafCombinators.
-  Variable M : ty -> val -> val.
-  Fixpoint map_fields (fs : list ty) (vs : list val) : list val :=
-    match fs, vs with f :: fs', x :: vs' => M f x :: map_fields fs' vs' | _, _ => vs end.
-  Fixpoint map_sel (fs : list ty) (k : nat) (x : val) : val :=
-    match fs, k with
-    | [], _ => x
-    | f :: _, O => M f x
-    | _ :: r, S k' => map_sel r k' x
-    end.
-  Variable A : ty -> val -> bool.
-  Fixpoint all_fields (fs : list ty) (vs : list val) : bool :=
-    match fs, vs with f :: fs', x :: vs' => A f x && all_fields fs' vs' | _, _ => true end.
-  Fixpoint all_sel (fs : list ty) (k : nat) (x : val) : bool :=
-    match fs, k with
-    | [], _ => true
-    | f :: _, O => A f x
-    | _ :: r, S k' => all_sel r k' x
-    end.
-End LeafCombinators.
-
-Fixpoint map_prims (F : prim -> val -> val) (t : ty) (v : val) : val :=
-  match t, v with
-  | TPrim p, _ => F p v
-  | TFix e _, VArr l => VArr (map (map_prims F e) l)
-  | TVar e _, VArr l => VArr (map (map_prims F e) l)
-  | TComp false fs _, VStruct vs => VStruct (map_fields (map_prims F) fs vs)
-  | TComp true fs _, VUnion k x => VUnion k (map_sel (map_prims F) fs k x)
-  | _, _ => v
-  end.
-
-Fixpoint all_prims (G : prim -> val -> bool) (t : ty) (v : val) : bool :=
-  match t, v with
-  | TPrim p, _ => G p v
-  | TFix e _, VArr l => forallb (all_prims G e) l
-  | TVar e _, VArr l => forallb (all_prims G e) l
-  | TComp false fs _, VStruct vs => all_fields (all_prims G) fs vs
-  | TComp true fs _, VUnion k x => all_sel (all_prims G) fs k x
-  | _, _ => true
-  end.
-
-(* the trigger of finding F-F16-TIE as a boolean predicate: no float16 field of v holds an exact tie *)
-Definition no_f16_tie (t : ty) (v : val) : bool := all_prims (fun p x => negb (tie_leaf p x)) t v.
-
-(* a decoded float16 NaN is canonical when re-encoding reproduces it (the pack function emits 0x7E00 | sign only) *)
-Definition nan_canon_leaf (p : prim) (v : val) : bool :=
-  match p, v with
-  | PF w _, VFlt x => negb (is_f16 w) || negb (is_nan32 x) || (f16_unpack (f16_pack (x mod 2 ^ 32)) =? x)
-  | _, _ => true
-  end.
-Definition f16_nans_canonical (t : ty) (v : val) : bool := all_prims nan_canon_leaf t v.
-
-(* ---- targets and options ---- *)
 Inductive target : Type := TgC | TgCpp | TgPy.
 
-Inductive endianness : Type := EndAny | EndLittle | EndBig.
-Inductive cpp_std : Type := Cpp14 | Cpp17 | Cpp20 | Cpp17Pmr | CetlPP.
-Record options : Type := {
-  opt_endianness : endianness;        (* target_endianness; `little`/`big` only valid on a host of that endianness *)
-  opt_asserts : bool;                 (* enable_serialization_asserts *)
-  opt_std : cpp_std;                  (* C++ std / std_flavor: container, variant and allocator types only *)
-  opt_override_vla_capacity : bool;   (* enable_override_variable_array_capacity *)
-}.
+(* the code-generation options that select different generated code / support-library renderings in the models:
+     opt_little    target_endianness = little (memmove / direct loads rendering of nunavutSetUxx / nunavutGetU8..64) vs any|big (portable
+                   byte assembly): the `little` argument of Prims/CPrims.v;
+     opt_setzeros  C++: zero runs (alignment padding, void fields) written by bitspan::setZeros vs by setUxx(0, n): the `zv`
+                   argument of Codec/InstancesCpp.v (both renderings occur in the templates: padAndMoveToAlignment / void fields);
+     opt_asserts   enable_serialization_asserts: the epilogue assertions of the generated (de)serializers are compiled in.
+   C++ standard / allocator flavour and the variable-array container change the storage OBJECT only (std::vector vs pmr vector,
+   variant emulation); the walkers consume abstract values, so these options do not reach the models - they are covered by the
+   pairwise correspondence runs of the check, not by a theorem. *)
+Record options : Type := { opt_little : bool; opt_setzeros : bool; opt_asserts : bool }.
+Definition default_options : options := {| opt_little := false; opt_setzeros := true; opt_asserts := false |}.
 
 Definition target_pre (tg : target) (t : ty) (v : val) : val :=
-  match tg with TgPy => map_prims py_leaf t v | _ => v end.
+  match tg with TgPy => py_pre t v | _ => v end.
 
-(* observable of T_serialize_ / serialize() / nunavut_support.serialize under target tg and option set o *)
-Definition target_ser (tg : target) (o : options) (t : ty) (v : val) (cap_bytes : nat) : res (list bool) :=
+(* spec-side description of T_serialize_ / serialize() / nunavut_support.serialize of target tg *)
+Definition spec_ser (tg : target) (t : ty) (v : val) (cap_bytes : nat) : res (list bool) :=
   ser_spec t (target_pre tg t v) cap_bytes.
 
-(* observable of the deserializers: float16 unpacking is exact in every target *)
-Definition target_des (tg : target) (o : options) (t : ty) (bs : list bool) : res (val * nat) :=
-  des_spec t bs.
-
-Definition default_options : options :=
-  {| opt_endianness := EndAny; opt_asserts := false; opt_std := Cpp14; opt_override_vla_capacity := false |}.
-
-(* for the harness: request `tser py ...` *)
-Definition py_ser (t : ty) (v : val) (cap_bytes : nat) : res (list bool) := target_ser TgPy default_options t v cap_bytes.
+(* for the harness: request `pser` *)
+Definition py_ser (t : ty) (v : val) (cap_bytes : nat) : res (list bool) := spec_ser TgPy t v cap_bytes.
 Definition tie_free (t : ty) (v : val) : bool := no_f16_tie t v.
